@@ -222,7 +222,7 @@ class Discharger(object):
         # seeded attempts (alternately fresh and push/pop solvers) come first ...
         self.timeout_ms = min(full, 10000)
         try:
-          for seed in range(1, 7):
+          for seed in range(1, 13 if full >= 60000 else 7):
             if self.deadline and time.time() > self.deadline:
               break
             s3 = self._solver(pc, ax)
